@@ -24,7 +24,7 @@ RULE = (
 ASSUMPTIONS = [
     "model: amounts per component name in rationals; names of initial contents are read from Labware.composition at construction, the naming RULE is checked separately for multi-row plates, multi-column Troughs and single-well labware (1xN plates not asserted)",
     "liquid of unknown composition is never introduced",
-    "tolerances: fractions 1e-9 absolute, sums 1e-9, conservation 1e-9 relative",
+    "tolerances: fractions 1e-9 absolute plus 1e-12 x (largest volume handled) / (volume of the well) for nearly empty wells, sums 1e-9, conservation 1e-9 relative",
 ]
 BUDGET = {"quick": (4, 300), "thorough": (16, 4000)}
 KNOWN_KINDS = {}
@@ -162,6 +162,7 @@ def check_case(case) -> Obs:
     if obs.violations:
         return obs
     troughs = trough_indices(specs)
+    scale = max([1.0] + [float(np.max(lw.volumes)) for lw in world.labs])
     mixes = 0
     emptied = set()
     fed = {}  # (lab, idx) -> chain depth of the liquid it holds
@@ -329,8 +330,11 @@ def check_case(case) -> Obs:
                     break
                 want = model.fractions(idx)
                 got = {name: float(arr[idx]) for name, arr in comp.items() if arr[idx] != 0}
+                # float round-off of the volume bookkeeping (~1e-16 x the volumes handled) becomes a fraction error of
+                # round-off / volume in a nearly empty well
+                tol = 1e-9 + 1e-12 * scale / float(vols[idx])
                 for name in set(want) | set(got):
-                    if abs(float(want.get(name, 0)) - got.get(name, 0.0)) > 1e-9:
+                    if abs(float(want.get(name, 0)) - got.get(name, 0.0)) > tol:
                         obs.bad(
                             "C05/mixture",
                             f"after op {k} {kind} ({case['device']}): {spec['name']}{idx}: fraction of {name!r} is {got.get(name, 0.0)!r}, ideal mixing gives {float(want.get(name, 0))!r} (op: {({a: conc[a] for a in conc if a in ('pairs', 'flatvols', 'dflat', 'vol', 'col', 'wells', 'vols', 'comps')})})",
